@@ -207,7 +207,9 @@ func (g *c28Gen) tsOutside() (uint64, string) {
 	}
 }
 
-func (g *c28Gen) sign(c *c28Cmd, kp *crypto.SigningKeypair) { c.Sig = crypto.Sign(kp.PrivateKey, c.signable()) }
+func (g *c28Gen) sign(c *c28Cmd, kp *crypto.SigningKeypair) {
+	c.Sig = crypto.Sign(kp.PrivateKey, c.signable())
+}
 
 // finish computes SigOK independently of the code under test.
 func (g *c28Gen) finish(c *c28Cmd) *c28Cmd {
